@@ -236,3 +236,6 @@ ssize_t __wrap_recvmsg(int fd, struct msghdr *m, int flags) {
 	return (ssize_t) off;
 }
 }
+
+// the simulated machine has no epoll: the notifier falls back to poll(), which knows the simulated descriptors
+extern "C" int __wrap_epoll_create1(int) { errno = ENOSYS; return -1; }
